@@ -73,6 +73,7 @@ type GoCall struct {
 	BoardDiff       string
 	AfterPolls      int
 	Returned        bool
+	Killed          bool // the harness unwound this search after giving up on it
 }
 
 // UCIOutcome is the result of running a uci scenario.
@@ -134,6 +135,7 @@ type uciWorld struct {
 	anyInterrupt bool
 	stackBuf     []byte
 	needInspect  bool
+	stuck        bool
 	autoGrant    bool // every write is granted at once (C08 driver twins)
 	twinOf       *uciWorld
 	readyokOwed  int // isready lines handed to the reader minus readyok lines seen at the writer
@@ -249,6 +251,8 @@ func (ws *wrapSearch) Go(b *board.Board, opts ...search.Option) (score chess.Sco
 		if r := recover(); r != nil {
 			if la, ok := r.(livenessAbort); ok {
 				call.Panic = "liveness: " + la.detail
+			} else if _, ok := r.(harnessKill); ok {
+				call.Killed = true
 			} else {
 				call.Panic = fmt.Sprint(r)
 				call.PanicStack = trimStack(debug.Stack())
@@ -514,6 +518,19 @@ func (w *uciWorld) safeToPump(chunk []byte) bool {
 	return false
 }
 
+// maxBubbleUS keeps a session inside the range of the bubble's clock (the
+// runtime's nanosecond counter overflows 292 years after the bubble's epoch).
+const maxBubbleUS = 230 * 365 * 24 * 3600 * 1_000_000
+
+// sleep lets simulated time pass, unless that would overflow the clock.
+func (w *uciWorld) sleep(d time.Duration) bool {
+	if w.now()+d.Microseconds() > maxBubbleUS {
+		return false
+	}
+	time.Sleep(d)
+	return true
+}
+
 // guiWrite appends bytes to the pipe and records an IN event for every line
 // completed by them (the verdicts are stated over whole lines).
 func (w *uciWorld) guiWrite(data string) {
@@ -574,7 +591,7 @@ func (w *uciWorld) apply(st UStep) bool {
 			st.CostUS = 0
 		}
 		if st.CostUS > 0 {
-			time.Sleep(time.Duration(st.CostUS) * time.Microsecond)
+			w.sleep(time.Duration(st.CostUS) * time.Microsecond)
 			w.settle()
 		}
 		if w.parked {
@@ -587,7 +604,9 @@ func (w *uciWorld) apply(st UStep) bool {
 			return false
 		}
 		if st.DUS > 0 {
-			time.Sleep(time.Duration(st.DUS) * time.Microsecond)
+			if !w.sleep(time.Duration(st.DUS) * time.Microsecond) {
+				return false
+			}
 			w.ev("TICK", "", st.DUS)
 		}
 	case "drain":
@@ -632,6 +651,9 @@ func firstToken(s string) string {
 // Run has returned). It is bounded: a search that keeps running without any
 // reason to stop is not waited for.
 func (w *uciWorld) drain(toEnd bool) {
+	if w.stuck {
+		return // nothing has been able to move since; do not burn simulated time
+	}
 	pollBudget := 400_000
 	for iter := 0; iter < 100_000; iter++ {
 		w.settle()
@@ -648,11 +670,17 @@ func (w *uciWorld) drain(toEnd bool) {
 			// the interrupt goroutine is blocked outside its select, nothing is
 			// waiting to be written and the search is not at a poll: nobody can move
 			w.ev("STUCK", "interrupt goroutine blocked outside its select", 0)
+			w.stuck = true
 			return
 		case w.parked:
 			if pollBudget <= 0 {
 				w.ev("DRAIN-GIVEUP", "poll budget exhausted", 0)
-				return
+				// unwind the search (harness action, recorded) and go on, so that the
+				// session can end and no goroutine stays behind in the bubble
+				w.parked = false
+				w.co.resumeN <- -1
+				pollBudget = 400_000
+				continue
 			}
 			w.apply(UStep{Op: "run", Polls: 2000})
 			pollBudget -= 2000
@@ -660,15 +688,16 @@ func (w *uciWorld) drain(toEnd bool) {
 			// nothing is runnable now: let simulated time pass so that any armed
 			// timer fires; if even that changes nothing the system is stuck
 			before := len(w.out.Events)
-			time.Sleep(time.Hour)
+			w.sleep(time.Hour)
 			w.settle()
 			if len(w.out.Events) == before && !w.hasPend && !w.parked && !w.finished {
 				// longer than any clock the properties speak about (10^12 ms)
-				time.Sleep(33 * 365 * 24 * time.Hour)
+				w.sleep(33 * 365 * 24 * time.Hour)
 				w.settle()
 			}
 			if len(w.out.Events) == before && !w.hasPend && !w.parked && !w.finished {
 				w.ev("STUCK", "", 0)
+				w.stuck = true
 				return
 			}
 		}
